@@ -95,12 +95,31 @@ def run(shard):
             viol("from_line_mapping raises", "%s: %s on table %s" % (type(e).__name__, e, H.short(list(table), 300)))
             return
         if back != table:
+            stage = localise(code, table)
             i = 0
             while i < min(len(back), len(table)) and back[i] == table[i]:
                 i += 1
             i -= i % 2
-            viol("re-encoded table differs", "table %s... re-encoded %s... (first difference at byte %d of %d/%d; code %d bytes)" % (
-                list(table[max(0, i - 4):i + 8]), list(back[max(0, i - 4):i + 8]), i, len(table), len(back), len(code.co_code)))
+            viol("re-encoded table differs", "table %s... re-encoded %s... (first difference at byte %d of %d/%d; code %d bytes; first stage "
+                 "whose inverse fails: %s)" % (list(table[max(0, i - 4):i + 8]), list(back[max(0, i - 4):i + 8]), i, len(table), len(back),
+                                               len(code.co_code), stage))
+
+    def localise(code, table):
+        """Which stage pair (bytes<->items, collapse<->expand, items<->mapping) is the first not to invert?  (diagnostic only)"""
+        try:
+            L = _line_mapping
+            items = L.bytes_to_items(table)
+            if L.items_to_bytes(items) != table:
+                return "bytes_to_items/items_to_bytes"
+            col = L.collapse_items(items, L.USE_LINETABLE)
+            if L.expand_items(L.collapse_items(L.bytes_to_items(table), L.USE_LINETABLE), L.USE_LINETABLE) != items:
+                return "collapse_items/expand_items"
+            m = L.items_to_mapping(col, len(code.co_code), L.USE_LINETABLE)
+            if L.mapping_to_items(m, L.USE_LINETABLE) != col:
+                return "items_to_mapping/mapping_to_items"
+            return "none (composition only)"
+        except Exception as e:
+            return "stage raised %s" % type(e).__name__
 
     # ---- W7: model-emitted tables
     rng = H.rng_for(shard.get("seed", 0), "w7", shard.get("shard", 0))
